@@ -406,6 +406,33 @@ func (m *Model) ruleTIMER(r *Results) {
 	if n == 0 {
 		r.undecided(rule, "timer creation", "-", "no time.AfterFunc whose result is kept in a field")
 	}
+	// the shared timer is stopped only by the store's shutdown routine: a handle that is merely
+	// closed must not stop the timer the other handles rely on
+	if sh := m.A.ShutdownFn; sh != nil {
+		extent := m.reachableLocal(sh)
+		ns := 0
+		for _, fn := range m.Funcs {
+			m.eachCall(fn, func(c ssa.CallInstruction) {
+				callee := c.Common().StaticCallee()
+				if callee == nil || callee.Pkg == nil || callee.Pkg.Pkg.Path() != "time" || callee.Name() != "Stop" || !isMethodCall(c.Common(), "time", "Timer", "Stop") {
+					return
+				}
+				// the package function that contains the Stop (the manager's stop method), and who calls it
+				stopFn := fn
+				for stopFn.Parent() != nil {
+					stopFn = stopFn.Parent()
+				}
+				for _, cl := range m.staticCallersOf(stopFn) {
+					ns++
+					caller := cl.Parent()
+					r.check(extent[caller] || caller == sh, rule, m.declName(caller)+" / timer stopped only at store shutdown", m.instrPos(cl), "the expiry timer is stopped from the shutdown routine", "the shared expiry timer is stopped from "+m.declName(caller)+", outside the store's shutdown routine: closing one handle (or another operation) silences expiry for every other handle of the bucket")
+				}
+			})
+		}
+		if ns == 0 {
+			r.undecided(rule, "timer stop", "-", "no caller of the function that stops the timer")
+		}
+	}
 	_ = token.ADD
 }
 
@@ -1412,5 +1439,173 @@ func (m *Model) openCleanupOnlyNew(r *Results, rule string, fn *ssa.Function) {
 	}
 	if n == 0 {
 		r.ok(rule, m.declName(fn)+" / cleanup deletes only a bucket created by this call", m.pos(fn.Pos()), "the open function has no deferred cleanup that deletes files")
+	}
+}
+
+// ---------------------------------------------------------------- R-FRESH-DECODE
+
+// json.Unmarshal into a non-nil map keeps the entries that are already there. A map that is
+// decoded into inside a loop must therefore be a fresh variable in each iteration (or a variable
+// declared in the loop body); hoisting it out of the loop makes every iteration see the union of
+// the earlier ones.
+func (m *Model) ruleFRESHDECODE(r *Results) {
+	const rule = "R-FRESH-DECODE"
+	n := 0
+	for _, fn := range m.Funcs {
+		if !m.inPkg(fn) {
+			continue
+		}
+		m.eachCall(fn, func(c ssa.CallInstruction) {
+			g := c.Common().StaticCallee()
+			if g == nil || g.Pkg == nil || g.Pkg.Pkg.Path() != "encoding/json" || (g.Name() != "Unmarshal" && g.Name() != "Decode") {
+				return
+			}
+			if !inCycle(c.Block()) {
+				return
+			}
+			dst := c.Common().Args[len(c.Common().Args)-1]
+			mi, ok := dst.(*ssa.MakeInterface)
+			if !ok {
+				return
+			}
+			al, ok := stripConv(mi.X).(*ssa.Alloc)
+			if !ok {
+				return
+			}
+			if _, isMap := al.Type().Underlying().(*types.Pointer).Elem().Underlying().(*types.Map); !isMap {
+				return
+			}
+			n++
+			key := fmt.Sprintf("%s / decode destination %s", m.declName(fn), cellName(al))
+			// fresh: allocated inside the loop, or reset (nil / make) inside the loop before the call
+			fresh := inCycle(al.Block())
+			if !fresh {
+				for _, ref := range *al.Referrers() {
+					if st, ok := ref.(*ssa.Store); ok && st.Addr == ssa.Value(al) && inCycle(st.Block()) && (st.Block() == c.Block() && indexIn(st.Block(), st) < indexIn(c.Block(), c) || st.Block() != c.Block() && st.Block().Dominates(c.Block())) {
+						fresh = true
+					}
+				}
+			}
+			r.check(fresh, rule, key, m.instrPos(c), "the map decoded into is a fresh variable in every iteration", "a map declared outside the loop is decoded into on every iteration: json.Unmarshal merges into a non-nil map, so each iteration also sees the keys of the earlier ones")
+		})
+	}
+	if n == 0 {
+		r.info(rule, "instances", "-", "no map is decoded into inside a loop")
+	}
+}
+
+// ---------------------------------------------------------------- R-WAIT-LOCK
+
+// Waiting (a blocking receive) for a channel that another goroutine closes, while holding a lock
+// that that goroutine needs before it gets to the close, is a deadlock just like a lock-order
+// cycle: the waiter never releases the lock, the closer never reaches the close.
+func (m *Model) ruleWAITLOCK(r *Results) {
+	const rule = "R-WAIT-LOCK"
+	lm := m.locks()
+	chanField := func(v ssa.Value) *types.Var {
+		_, f, ok := fieldLoad(stripConv(v))
+		if !ok {
+			return nil
+		}
+		if _, isChan := f.Type().Underlying().(*types.Chan); !isChan {
+			return nil
+		}
+		return f
+	}
+	// closers of each channel field, with the locks their function may take
+	closers := map[*types.Var][]*ssa.Function{}
+	for _, fn := range m.Funcs {
+		m.eachCall(fn, func(c ssa.CallInstruction) {
+			if !isBuiltinCall(c, "close") {
+				return
+			}
+			if f := chanField(c.Common().Args[0]); f != nil {
+				closers[f] = append(closers[f], fn)
+			}
+		})
+	}
+	n := 0
+	for _, W := range m.Funcs {
+		for _, b := range W.Blocks {
+			for _, ins := range b.Instrs {
+				recv, ok := ins.(*ssa.UnOp)
+				if !ok || recv.Op != token.ARROW {
+					continue
+				}
+				F := chanField(recv.X)
+				if F == nil || len(closers[F]) == 0 {
+					continue
+				}
+				n++
+				// locks held at the receive: in W itself, and at call sites of the chains that lead to W
+				type heldAt struct {
+					l     lockID
+					where string
+				}
+				var held []heldAt
+				if fl := lm.fns[W]; fl != nil {
+					for l := range fl.mustAt[recv] {
+						held = append(held, heldAt{l, m.declName(W)})
+					}
+				}
+				target := map[*ssa.Function]bool{W: true}
+				for changed := true; changed; {
+					changed = false
+					for _, X := range m.Funcs {
+						if target[X] {
+							continue
+						}
+						for _, e := range m.calleesOf(X) {
+							if !e.IsGo && target[e.Callee] {
+								target[X] = true
+								changed = true
+							}
+						}
+					}
+				}
+				for X := range target {
+					fl := lm.fns[X]
+					if fl == nil {
+						continue
+					}
+					for _, e := range m.calleesOf(X) {
+						if e.IsGo || !target[e.Callee] {
+							continue
+						}
+						for l := range fl.mustAt[e.Site] {
+							held = append(held, heldAt{l, m.declName(X)})
+						}
+					}
+				}
+				key := fmt.Sprintf("%s / waits for %s", m.declName(W), F.Name())
+				var problems []string
+				for _, G := range closers[F] {
+					root := G
+					for root.Parent() != nil {
+						root = root.Parent()
+					}
+					need := lockset{}
+					for l := range lm.acq[G] {
+						need[l] = true
+					}
+					for l := range lm.acq[root] {
+						need[l] = true
+					}
+					for _, h := range held {
+						if need[h.l] {
+							problems = append(problems, fmt.Sprintf("%s holds %s while the wait is in progress, and %s (which closes the channel) takes %s before it finishes", h.where, h.l, m.declName(root), h.l))
+						}
+					}
+				}
+				if len(problems) == 0 {
+					r.ok(rule, key, m.instrPos(recv), "no lock that the closing goroutine needs is held during the wait")
+				} else {
+					r.bad(rule, key, m.instrPos(recv), "%s: neither side can proceed (deadlock)", strings.Join(uniq(problems), "; "))
+				}
+			}
+		}
+	}
+	if n == 0 {
+		r.info(rule, "instances", "-", "no blocking receive on a channel field that the package closes")
 	}
 }
